@@ -70,7 +70,9 @@ if [[ -n "${INPUT_OUTPUT_FILE:-}" ]]; then
     echo "Both output_dir and output_file were set; choose one." >&2
     exit 1
   fi
-  args+=("${INPUT_OUTPUT_FILE}")
+  # "--" ends option parsing: without it a preceding "--mutators <name>" (which takes
+  # any number of values) swallows the output file name
+  args+=(-- "${INPUT_OUTPUT_FILE}")
 fi
 
 if [[ ${#args[@]} -eq 0 ]]; then
